@@ -1381,6 +1381,31 @@ def r17_eq_fields(facts):
                       "equality does not compare the elements as numbers with `==`: %s (values are equal exactly when `==` says so: 0.0 == -0.0, NaN != NaN, inf == inf)" % conv[2])
             else:
                 c.ok(inst + "#numbers", where, "elements are compared as floating-point numbers (no conversion to bits, integers, an ordering or text on the way)")
+        # each content field is read from BOTH operands (comparing an operand with itself is always "equal")
+        ps_ = [p_ for p_ in facts.params(b) if p_.get("pat") and p_["pat"].get("k") == "Binding" and (p_.get("ty") or "").replace("&", "").strip() == ARRAY]
+        if len(ps_) >= 2:
+            opv = {ps_[0]["pat"]["v"]: 0, ps_[1]["pat"]["v"]: 1}
+            seen_pairs = set()
+            for nb in facts.nested(b):
+                for n_ in walk(facts.root(nb)):
+                    if n_.get("k") == "Field" and n_.get("adt") == ARRAY and n_.get("name") in content:
+                        rv = var_of(peel(n_["e"]))
+                        if rv in opv:
+                            seen_pairs.add((opv[rv], n_["name"]))
+                    elif n_.get("k") == "Call" and resolved(n_) in ("corgi::array::Array::dimensions", "corgi::array::Array::values") and n_["args"]:
+                        rv = var_of(peel(n_["args"][0]))
+                        if rv in opv:
+                            seen_pairs.add((opv[rv], resolved(n_).rsplit("::", 1)[-1]))
+            one_sided = sorted(f_ for f_ in content if ((0, f_) in seen_pairs) != ((1, f_) in seen_pairs))
+            helper_calls = any(n_.get("k") == "Call" and (n_.get("callee") or {}).get("resolved_local") and resolved(n_) not in ("corgi::array::Array::dimensions", "corgi::array::Array::values")
+                               for nb in facts.nested(b) for n_ in walk(facts.root(nb)))
+            if one_sided and not helper_calls:
+                c.bad(inst + "#both-operands", where, "the comparison reads `%s` of only one of its two operands (the other side of the comparison is the same array again): "
+                      "arrays that differ in %s compare equal" % (one_sided[0], one_sided[0]))
+            elif one_sided:
+                c.unk(inst + "#both-operands", where, "`%s` is read from one operand only in this body; the rest goes through helper functions" % one_sided[0])
+            else:
+                c.ok(inst + "#both-operands", where, "dimensions and values are read from both operands")
         rows, why = eq_truth_table(facts, b)
         negated = b["name"].endswith("ne")
         if rows is None:
